@@ -36,7 +36,8 @@ check("C18", "Lean 4 refinement of the list operations to plain-sequence laws + 
 check("C16", "Lean 4 theorems over the frame-conversion model (real-number reading) + correspondence",
       "Theorems (Props/C16.lean): same-frame read-back, other frame = unit vector along UB^{+-1} v, None exactly when a UB is needed and missing — separately "
       "for reference and surface vector, independence of the two vectors, consistency of the two frames, read-back/set-back keeps the direction (setback_hkl/phi). "
-      "Model and UBCalculation properties compared on random setter/UB sequences; the oracle also checks pseudo-angle invariance under read-back/set-back.",
+      "Model and UBCalculation properties compared on random setter/UB sequences; the oracle also checks pseudo-angle invariance under read-back/set-back, "
+      "lengths from 1e-9 to 1e5 and that the setters copy a caller-owned list/array.",
       "Lean kernel; standard axioms; hand model Frames.lean; numpy inv modelled as adjugate/det; floating point within 1e-9.",
       "DESIGN.md §6 C16")
 
@@ -51,8 +52,8 @@ check("C08", "Lean 4 invariant by induction over UB-operation histories + Rodrig
 
 check("C17", "Lean 4 theorems 'error => state unchanged' for three state machines + fault enumeration of rejected updates",
       "Theorems: every raising operation of the constraint manager (C10.step_error_unchanged), of both lists (C18.step_error_unchanged) and of the UB state machine "
-      "(C08.step_error_unchanged) leaves the model state unchanged, for every state. The models are tied by the C10/C18/C08 correspondences; the oracle attempts ~45 kinds "
-      "of rejected update on random reachable calculators and compares a deep snapshot before/after.",
+      "(C08.step_error_unchanged) leaves the model state unchanged, for every state. The models are tied by the C10/C18/C08 correspondences; the oracle attempts ~400 kinds "
+      "of rejected update (every argument of every editor malformed, bulk assignments with attribute-colliding names and unrepresentable values) on random reachable calculators and compares a deep snapshot before/after.",
       "Lean kernel; standard axioms; statement order inside mutators is modelled by hand (tied by correspondence on malformed histories); Crystal's constructor only by the oracle.",
       "DESIGN.md §6 C17")
 
@@ -112,8 +113,8 @@ check("C03", "Lean 4 theorems (root enumeration complete, detector-layer complet
 check("C11", "Lean 4 no-leak calculus assembled over the whole solver model (finite-real reading) + special-value execution",
       "Proved (C11.c11_getPosition): for every implemented mode shape, every finite input and invertible B, the model's get_position either returns a NON-EMPTY list or fails with "
       "DiffcalcException — every asin/acos behind bound, every bound inside a try/except AssertionError or provably within [-1,1] (Cauchy-Schwarz for _calc_N / angle_between_vectors; the "
-      "beta argument is n.k_f); get_virtual_angles is total for all reference/surface vectors (virtualAngles_total); hkl=(0,0,0) and unreachable reflections map to DiffcalcException (noLeak_ttheta). "
-      "The implementation is executed on the special-value stream (multiples of 90 deg, zeros, parallel/anti-parallel vectors, non-unit vectors) and every other exception class or non-finite position is reported; str() of the calculators by the oracle.",
+      "beta argument is n.k_f); get_virtual_angles is total for all reference/surface vectors (virtualAngles_total), get_miscut (behind str(UBCalculation)) is total for a surface vector of any length (C08.getMiscut_total); hkl=(0,0,0) and unreachable reflections map to DiffcalcException (noLeak_ttheta). "
+      "The implementation is executed on the special-value stream (multiples of 90 deg, zeros, parallel/anti-parallel and nearly parallel vectors, non-unit vectors) and every other exception class or non-finite position is reported; str() of the calculators by the oracle.",
       "Lean kernel; standard axioms; finite real arithmetic: inf/NaN from numpy division by exact zero cannot be exhibited by the model (covered by execution only); hand model tied by sampled correspondence.",
       "DESIGN.md §6 C11")
 
@@ -143,7 +144,7 @@ check("C20", "Lean 4 theorems over a hand model (Rodrigues rotations about the a
       "Theorems (Props/C20.lean, real reading): the offset vector has the length of the reference (|UB v'| = |UB v|) and makes exactly the polar angle with it for every azimuth; the frame "
       "decomposition used by the inverse is exact (offset_closed / offset_components), the azimuth atan2 recovers a mod 2 pi for every a incl. 90/180/270 deg where one projection vanishes, and the gate "
       "is open whenever sin(pol) >= 2e-7. Correspondence: model vs both functions on random/axis-aligned/lab-axis references (auxiliary axis switch), azimuth sweeps + special values + beyond 360. "
-      "Oracle: round trip (pol, az mod 360, scale) on the implementation.",
+      "Oracle: round trip (pol, az mod 360, scale) on the implementation, also on one calculator object across lattice/U/UB changes through every public route.",
       "Lean kernel; standard axioms; hand model tied by correspondence; scipy from_rotvec modelled by Rodrigues' formula; PARTIAL: composition through angle_between_vectors/bound by correspondence + oracle.",
       "DESIGN.md §6 C20")
 
